@@ -2,6 +2,7 @@ package main
 
 import (
 	"fmt"
+	"go/token"
 	"strings"
 
 	"golang.org/x/tools/go/ssa"
@@ -432,6 +433,11 @@ func c02SuccessionFirst(c *Ctx, rule string) {
 			d := p.mustHoldAt(ret.Ret)
 			// expected number = φ(<number read from the head through reader> + 1 | 0); any spelling of the comparison
 			okNum, m1 := everyDisjunctHas(d, []string{"φ((", "(reader)", " + 1) | 0) == block.Header.Number)"})
+			if !okNum {
+				// the expected number may be computed by a same-package helper (`expectedSuccessor(reader)`): decide on the set
+				// of values the compared operand can take — exactly {0, <head number read through reader> + 1}
+				okNum = c06ExpectedNumberAlts(f)
+			}
 			okPar, m2 := everyDisjunctHas(d, []string{"block.Header.ParentHash.Equal("}, []string{".Equal(block.Header.ParentHash)"})
 			c.check(okNum && okPar, rule, "verifyBlockSuccession accepts", p.Pos(posOf(ret.Ret, f)), "only a block numbered head+1 (0 on an empty chain) whose parent hash is the head's hash",
 				"a block that does not extend the head can pass the succession check (a stale or forged lower-numbered block is then judged by parent hash only — the syncer takes the mismatch for a reorg and reverts canonical blocks, or the block is stored below the head): "+m1+" "+m2)
@@ -543,4 +549,84 @@ func c06RevertOnStoreStream(c *Ctx) {
 	if n < 2 {
 		c.und("revert-on-store-stream", "revertTask callers", "", fmt.Sprintf("only %d callers found", n))
 	}
+}
+
+// c06ExpectedNumberAlts: in verifyBlockSuccession the operand compared with block.Number takes exactly the values
+// {0, X + 1} where X is read from the head through the reader — also when it is produced by a same-package helper.
+func c06ExpectedNumberAlts(f *ssa.Function) bool {
+	var alts func(v ssa.Value, inCallee bool, depth int) []string
+	alts = func(v ssa.Value, inCallee bool, depth int) []string {
+		if depth > 6 {
+			return []string{"?"}
+		}
+		switch x := v.(type) {
+		case *ssa.Phi:
+			var out []string
+			for _, e := range x.Edges {
+				out = append(out, alts(e, inCallee, depth+1)...)
+			}
+			return out
+		case *ssa.Extract:
+			call, ok := x.Tuple.(*ssa.Call)
+			if !ok {
+				break
+			}
+			g := call.Call.StaticCallee()
+			if g == nil || len(g.Blocks) == 0 || pkgRelOf(g) != pkgRelOf(f) {
+				break
+			}
+			var out []string
+			for _, r := range returnsOf(g) {
+				if x.Index >= len(r.Results) {
+					return []string{"?"}
+				}
+				last := r.Results[len(r.Results)-1]
+				if last.Type().String() == "error" && !isNilConst(last) {
+					continue // error return: the caller does not use the value
+				}
+				for _, a := range alts(r.Results[x.Index], true, depth+1) {
+					for i := len(call.Call.Args) - 1; i >= 0; i-- {
+						a = strings.ReplaceAll(a, fmt.Sprintf("$%d", i), term(call.Call.Args[i]))
+					}
+					out = append(out, a)
+				}
+			}
+			return out
+		}
+		if inCallee {
+			return []string{termP(v)}
+		}
+		return []string{term(v)}
+	}
+	ok := false
+	allInstrs(f, func(in ssa.Instruction) {
+		b, isB := in.(*ssa.BinOp)
+		if !isB || (b.Op != token.EQL && b.Op != token.NEQ) {
+			return
+		}
+		var other ssa.Value
+		switch {
+		case strings.HasSuffix(term(b.X), "block.Header.Number") || strings.HasSuffix(term(b.X), "block.Number"):
+			other = b.Y
+		case strings.HasSuffix(term(b.Y), "block.Header.Number") || strings.HasSuffix(term(b.Y), "block.Number"):
+			other = b.X
+		default:
+			return
+		}
+		zero, succ, rest := 0, 0, 0
+		for _, a := range uniq(alts(other, false, 0)) {
+			switch {
+			case a == "0":
+				zero++
+			case strings.HasPrefix(a, "(") && strings.HasSuffix(a, " + 1)") && strings.Contains(a, "reader"):
+				succ++
+			default:
+				rest++
+			}
+		}
+		if zero == 1 && succ == 1 && rest == 0 {
+			ok = true
+		}
+	})
+	return ok
 }
